@@ -364,7 +364,7 @@ func init() {
 			Name: "variation/" + name,
 			N:    qt(8000, 800000),
 			Run: func(c *mon.Ctx, i int) {
-				prof := append(patchProfiles[:5:5], gen.PNumbers)[i%6]
+				prof := append(patchProfiles[:5:5], gen.PNumbers, gen.PSyntaxy)[i%7]
 				var a, b any
 				switch {
 				case i%10 == 9:
